@@ -35,8 +35,8 @@ META = dict(
                'load_db_broadcast_states', 'addict',
                'WorkflowDatabaseManager.put_broadcast',
                'get_broadcast_change_iter', 'BroadcastConfigValidator'],
-    bounds=['operations: put (3 cycles x 3 namespaces x 4 settings x 2 '
-            'values), clear (cycle/namespace filters, optional key), expire '
+    bounds=['operations: put (3 cycles x 3 namespaces x 4 settings x 3 '
+            'values incl. the empty string), clear (cycle/namespace filters, optional key), expire '
             '(cutoff 1..3); 2 quick / 3 thorough'],
     stubs=['scheduler stand-in (config, run mode)', 'data_store_mgr',
            'broadcast_states table: dictionary model'],
@@ -51,9 +51,9 @@ SETTINGS = [
     lambda v: {'script': v},
     lambda v: {'environment': {'A': v}},
     lambda v: {'environment': {'B': v}},
-    lambda v: {'environment': {'A': v, 'B': v + 'b'}},     # multi-key
+    lambda v: {'environment': {'A': v, 'B': v and v + 'b'}},     # multi-key
 ]
-VALS = ['v1', 'v2']
+VALS = ['v1', 'v2', '']          # '' = a legitimate falsy value
 ANC = {'d': ['d', 'FAM', 'root'], 'a': ['a', 'root']}
 
 
@@ -164,8 +164,8 @@ def history(k1: int, c1: int, n1: int, s1: int, v1: int,
     pre: 0 <= c1 <= 2 and 0 <= c2 <= 2 and 0 <= c3 <= 2 and 0 <= c4 <= 2
     pre: 0 <= n1 <= 2 and 0 <= n2 <= 2 and 0 <= n3 <= 2 and 0 <= n4 <= 2
     pre: 0 <= s1 <= 3 and 0 <= s2 <= 3 and 0 <= s3 <= 3 and 0 <= s4 <= 3
-    pre: 0 <= v1 <= 1 and 0 <= v2 <= 1 and 0 <= v3 <= 1 and 0 <= v4 <= 1
-    pre: v1 == 0 and (k2 == 0 or (v2 == 0 and s2 <= 1))
+    pre: 0 <= v1 <= 2 and 0 <= v2 <= 2 and 0 <= v3 <= 2 and 0 <= v4 <= 2
+    pre: v1 in (0, 2) and (k2 == 0 or (v2 == 0 and s2 <= 1))
     pre: (k3 == 0 or (v3 == 0 and s3 <= 1)) and (k4 == 0 or (v4 == 0 and s4 <= 1))
     pre: (k2 != 2 or n2 == 0) and (k3 != 2 or n3 == 0) and (k4 != 2 or n4 == 0)
     pre: SLICE['n'] >= 4 or (k4 == 0 and c4 == 0 and n4 == 0 and s4 == 0 and v4 == 0)
@@ -175,7 +175,7 @@ def history(k1: int, c1: int, n1: int, s1: int, v1: int,
     raw = [(k1, c1, n1, s1, v1), (k2, c2, n2, s2, v2), (k3, c3, n3, s3, v3),
            (k4, c4, n4, s4, v4)][:SLICE['n']]
     ops = [(fork_int(k, 0, 2), fork_int(c, 0, 2), fork_int(n, 0, 2),
-            fork_int(s, 0, 3), fork_int(v, 0, 1)) for k, c, n, s, v in raw]
+            fork_int(s, 0, 3), fork_int(v, 0, 2)) for k, c, n, s, v in raw]
     with concrete():
         return _run(ops)
 
